@@ -273,6 +273,7 @@ func TestC08_CloseAndPingStateMachine(t *testing.T) {
 
 		// an AsyncClose whose transport write has not been delivered yet (the Close frame is "in flight")
 		var pendingCloseDone *int
+		var pendingBurst []*int // completions of writes submitted just before an AsyncClose that was left in flight
 		var pendingCloseErr *error
 		deliverUntil := func(done *int, what string) {
 			for d := 0; *done == 0; d++ {
@@ -291,6 +292,10 @@ func TestC08_CloseAndPingStateMachine(t *testing.T) {
 			if pendingCloseDone != nil {
 				d, e := pendingCloseDone, pendingCloseErr
 				pendingCloseDone, pendingCloseErr = nil, nil
+				for _, b := range pendingBurst {
+					deliverUntil(b, "AsyncWrite submitted before the close (delivered later)")
+				}
+				pendingBurst = nil
 				deliverUntil(d, "AsyncClose (delivered later)")
 				if *e != nil {
 					t.Fatalf("AsyncClose completed with %v; trace=%v", *e, trace)
@@ -585,6 +590,24 @@ func TestC08_CloseAndPingStateMachine(t *testing.T) {
 			var cerr error
 			async := rapid.Bool().Draw(t, "asyncClose")
 			inFlight := false
+			// application writes submitted just before the Close, not yet completed: they were submitted first, so their
+			// frames precede the Close frame on the wire ("nor any data frame after its Close frame")
+			var burstDone []*int
+			if async && m.state == epOpen && rapid.IntRange(0, 2).Draw(t, "burstBeforeClose") == 0 {
+				for i, n := 0, rapid.IntRange(1, 3).Draw(t, "burst"); i < n; i++ {
+					p := smallPayload("blen", 40)
+					d := new(int)
+					burstDone = append(burstDone, d)
+					s.AsyncWrite(p, websocket.TypeBinary, func(err error) {
+						*d++
+						if err != nil {
+							t.Fatalf("AsyncWrite submitted before the Close failed: %v; trace=%v", err, trace)
+						}
+					})
+					m.out = append(m.out, expOut{op: rfc6455.OpBinary, payload: p, what: "application frame submitted before the close"})
+					trace = append(trace, fmt.Sprintf("AsyncWrite(%d,not awaited)", len(p)))
+				}
+			}
 			if async {
 				done := 0
 				s.AsyncClose(code, reason, func(err error) { done++; cerr = err })
@@ -598,6 +621,13 @@ func TestC08_CloseAndPingStateMachine(t *testing.T) {
 				}
 			} else {
 				cerr = s.Close(code, reason)
+			}
+			if !inFlight {
+				for _, d := range burstDone {
+					deliverUntil(d, "AsyncWrite submitted before the close")
+				}
+			} else {
+				pendingBurst = append(pendingBurst, burstDone...)
 			}
 			trace = append(trace, fmt.Sprintf("close(async=%v,inflight=%v,%d)=%v", async, inFlight, code, cerr))
 			if m.state == epOpen {
